@@ -267,6 +267,11 @@ func c16(e *Env) {
 		c16Readiness(e, cfg)
 		return
 	}
+	shape := c.Choose("c16shape", 4)
+	if shape != 1 {
+		// several connections per host (the pool-healing shape reads dial times as those of one slot)
+		cfg.NumConns = 1 + c.Choose("c16numconns", 3)
+	}
 	w, pi := boot(e, cfg)
 	if pi.BootErr != nil || pi.Listener == nil {
 		if !w.Stopped() {
@@ -282,8 +287,50 @@ func c16(e *Env) {
 	// liveness bound after the last fault (sum of the configured timeouts plus slack, DESIGN.md §7 C16)
 	const refreshWindow, refreshTimeout = 10 * time.Second, 5 * time.Second
 	bound := refreshWindow + refreshTimeout + cfg.ReconnMax + 2*cfg.ConnectTimeout + cfg.IdleTimeout + cfg.Heartbeat + 5*time.Second
-	shape := c.Choose("c16shape", 4)
 	names := []string{"topology", "pool-healing", "heartbeat-stall", "control-failover"}
+	// with several connections per host: once things have settled every pool is complete again
+	poolsComplete := func(what string) bool {
+		if cfg.NumConns < 2 {
+			return true
+		}
+		type key struct {
+			n        *world.Node
+			v        primitive.ProtocolVersion
+			comp, ks string
+		}
+		count := func() map[key]int {
+			m := map[key]int{}
+			for _, n := range w.Nodes {
+				if !n.Up || !n.InCluster || n.Stalled {
+					continue
+				}
+				for _, bc := range n.LiveConns() {
+					if bc.Started && !bc.Control && bc.Keyspace != "nosuch" {
+						// (what remains of the session of a failed USE is no pool anybody is handed: §10)
+						m[key{n, bc.Version, bc.Compression, bc.Keyspace}]++
+					}
+				}
+			}
+			return m
+		}
+		full := func() bool {
+			for _, k := range count() {
+				if k < cfg.NumConns {
+					return false
+				}
+			}
+			return true
+		}
+		if !w.RunUntil(full, bound) && !w.Stopped() {
+			for k, cnt := range count() {
+				if cnt < cfg.NumConns {
+					w.Violate("c16-healing", "pool-incomplete", fmt.Sprintf("%s: %v after the last fault the session (version %s, compression %q, keyspace %q) has %d of %d connections to %s", what, bound, k.v, k.comp, k.ks, cnt, cfg.NumConns, k.n))
+					return false
+				}
+			}
+		}
+		return !w.Stopped()
+	}
 	e.Res.Shape = fmt.Sprintf("%s h%d base=%v max=%v", names[shape], cfg.Hosts, cfg.ReconnBase, cfg.ReconnMax)
 	e.Res.Stats["probe.c16.shape."+names[shape]]++
 	controlNode := func() *world.Node {
@@ -587,6 +634,9 @@ func c16(e *Env) {
 				}
 			}
 		}
+		if !poolsComplete("after the topology changes") {
+			return
+		}
 		e.Res.Stats["oracle.c16.topology_rounds_checked"]++
 		e.Res.Nontrivial = true
 		e.Res.Sample = fmt.Sprintf("topology: %d faults, final cluster {%s}, probes served by %v", nf, keysOf(want), hit)
@@ -793,6 +843,9 @@ func c16(e *Env) {
 			w.Violate("c16-healing", "pool-connection-not-replaced", fmt.Sprintf("%v after %s resumed the proxy has no pooled connection to it that requests are routed over", bound, n))
 			return
 		}
+		if !poolsComplete("after the node resumed") {
+			return
+		}
 		e.Res.Stats["oracle.c16.stalls_checked"]++
 		e.Res.Nontrivial = true
 		e.Res.Sample = fmt.Sprintf("heartbeat-stall: %s stalled, %d connections closed within %v, replaced after resume", n, len(conns), limit)
@@ -900,6 +953,9 @@ func c16(e *Env) {
 		}
 		if d3 != 0 {
 			w.Violate("c16-outage", "outage-not-cleared", fmt.Sprintf("the control connection is re-established on %s but OutageDuration is still %v", controlNode(), d3))
+			return
+		}
+		if !poolsComplete("after the control connection failed over") {
 			return
 		}
 		e.Res.Stats["oracle.c16.failovers_checked"]++
